@@ -67,16 +67,19 @@ def env(fs, clock=None):
     clock = clock or Clock()
     saved = []
 
-    def setg(mod, name, val):
+    def setg(mod, name, make):
+        # cut only what the module really uses (a module may stop importing warnings / traceback / pydoc)
+        if name not in mod.__dict__:
+            return
         saved.append((mod, name, mod.__dict__[name]))
-        setattr(mod, name, val)
-    setg(jm, "time", _Shim(jm.time, time=clock.time, sleep=clock.sleep))
-    setg(sb, "time", _Shim(sb.time, time=clock.time, sleep=clock.sleep))
-    setg(jm, "warnings", _Shim(jm.warnings, warn=_rec_warn))
-    setg(sb, "warnings", _Shim(sb.warnings, warn=_rec_warn))
-    setg(fi, "warnings", _Shim(fi.warnings, warn=_rec_warn))
-    setg(jm, "traceback", _Shim(jm.traceback, format_exc=lambda *a, **k: "<traceback cut>"))
-    setg(jm, "pydoc", _Shim(jm.pydoc, TextDoc=_TextDoc))
+        setattr(mod, name, make(mod.__dict__[name]))
+    setg(jm, "time", lambda m: _Shim(m, time=clock.time, sleep=clock.sleep))
+    setg(sb, "time", lambda m: _Shim(m, time=clock.time, sleep=clock.sleep))
+    setg(jm, "warnings", lambda m: _Shim(m, warn=_rec_warn))
+    setg(sb, "warnings", lambda m: _Shim(m, warn=_rec_warn))
+    setg(fi, "warnings", lambda m: _Shim(m, warn=_rec_warn))
+    setg(jm, "traceback", lambda m: _Shim(m, format_exc=lambda *a, **k: "<traceback cut>"))
+    setg(jm, "pydoc", lambda m: _Shim(m, TextDoc=_TextDoc))
     try:
         with fakefs.installed(fs):
             yield clock
